@@ -572,6 +572,24 @@ def bounded(payload):
                     n_kw += 1
     parts["keyword_order_pairs"] = n_kw
 
+    # ---- several pre-supplied bindings: a match has to honour ALL of them (or ValueError) ----
+    n_pm = 0
+    for T, E, good in (
+            (["call", ["var", "f"], [["var", "x"], ["var", "y"]], {}], ["call", ["var", "f"], [["var", "p"], ["var", "q"]], {}],
+             {"x": ["var", "p"], "y": ["var", "q"]}),
+            (["sum", ["var", "x"], ["var", "y"]], ["sum", ["var", "p"], ["var", "q"]], {"x": ["var", "p"], "y": ["var", "q"]}),
+            (["call", ["var", "g"], [["prod", ["var", "x"], ["var", "y"]]], {"k": ["var", "z"]}],
+             ["call", ["var", "g"], [["prod", ["var", "p"], ["var", "q"]]], {"k": ["var", "r"]}],
+             {"x": ["var", "p"], "y": ["var", "q"], "z": ["var", "r"]})):
+        names_ = sorted(good)
+        wrong = ["var", "e"]
+        for mask in itertools.product((0, 1), repeat=len(names_)):
+            for order in itertools.permutations(names_):
+                pre = {n: (good[n] if mask[names_.index(n)] else wrong) for n in order}
+                run({"template": T, "target": E, "free": names_, "bound": None, "pre_match": pre})
+                n_pm += 1
+    parts["multiple_pre_match_cases"] = n_pm
+
     # ---- random ----
     for i in range(n_random):
         inp = random_input(rng)
